@@ -1481,6 +1481,9 @@ class Pregex():
         if pattern == "[a]":
             return _Type.Class, True
         elif __is_group(pattern):
+            lookaround = _re.match(r"\(\?<?([=!])", pattern)
+            if lookaround is not None:
+                return _Type.Assertion, lookaround.group(1) == '!'
             return _Type.Group, True
 
         # Replace every group with a simple character.
